@@ -548,8 +548,20 @@ impl<'a> QueryExecutor<'a> {
         let mut new_ops = vec![]; // new op and corresponding stage
         for (i, consumer) in self.ops.iter().enumerate() {
             for input in consumer.inputs() {
-                if !consumer.can_stream_input(input.i) || !total_order[stage_for_op[i]].stream {
-                    for &producer in &producers[input.i] {
+                // Scalars are single values, they are never buffered
+                if self.buffer_provider.all_buffers[input.i].tag.is_scalar() {
+                    continue;
+                }
+                for &producer in &producers[input.i] {
+                    // A consumer that could not join the producer's stage (it also depends on a blocking operator
+                    // downstream of that stage) runs after the producer has streamed ALL its chunks: the producer's
+                    // output buffer then holds only the last chunk, so such a consumer needs the block buffer as well
+                    // (and, if it streams itself, gets a StreamBuffer over it below).
+                    let other_stage = stage_for_op[i] != stage_for_op[producer];
+                    if !consumer.can_stream_input(input.i)
+                        || !total_order[stage_for_op[i]].stream
+                        || other_stage
+                    {
                         if self.ops[producer].can_stream_output(input.i)
                             && !block_output[producer]
                             && total_order[stage_for_op[producer]].stream
@@ -596,6 +608,12 @@ impl<'a> QueryExecutor<'a> {
             let mut already_substituted = vec![];
             for input in consumer.inputs() {
                 if consumer.can_stream_input(input.i) && !already_substituted.contains(&input.i) {
+                    // a block buffer inserted above: always a non-streaming producer
+                    if input.i >= producers.len() {
+                        substitutions.push((i, input.i));
+                        already_substituted.push(input.i);
+                        continue;
+                    }
                     for &producer in &producers[input.i] {
                         if !self.ops[producer].can_stream_output(input.i)
                             || block_output[producer]
